@@ -826,14 +826,17 @@ impl<'a> Engine<'a> {
 
     /// Set::iter / Set::drain / Set::into_iter consumed through std adaptor and consumer methods
     fn op_adaptor<F: Fam, const N: usize>(&mut self, s: &mut Sut<F, N>) {
-        use crate::common::{drive, STYLES};
+        use crate::common::{drive_pre, STYLES};
         let kind = self.rng.usize_below(4);
         let kname = ["iter", "(&set).into_iter", "drain", "into_iter"][kind];
         let style = 1 + self.rng.usize_below(STYLES.len() - 1);
         let len = s.model.len();
         let j = self.rng.usize_below(len + 2);
-        self.step("adaptor", || format!("Set::{}().{} j={}", kname, STYLES[style], j));
-        self.fp_step(s, O_ADAPT, (kind * 1000 + style * 50 + j) as u32, 0);
+        // half of the probes first step the iterator `pre` times with next() (up to and beyond its end)
+        let pre = if self.rng.chance(1, 2) { 0 } else { self.rng.usize_below(len + 2) };
+        self.step("adaptor", || format!("Set::{}().{} j={} after {} next() calls", kname, STYLES[style], j, pre));
+        self.fp_step(s, O_ADAPT, (kind * 1000 + style * 50 + j) as u32, pre as u64);
+        if pre >= len && len > 0 && !self.light { self.cx.rep.hit(&format!("adaptor-on-exhausted:{}", kname)); }
         if !self.light { self.cx.rep.hit(&format!("adaptor:{}:{}", kname, STYLES[style])); }
         let reference: Vec<(u32, u64)> = s.fr.get().iter().map(|k| (k.class(), if F::TRACKED { k.id() } else { 0 })).collect();
         let prop = if kind < 2 { "C09" } else { "C10" };
@@ -843,17 +846,17 @@ impl<'a> Engine<'a> {
         let idk = |k: &F::K| { k.chk("adaptor element"); (k.class(), if F::TRACKED { k.id() } else { 0 }) };
         match kind {
             0 => {
-                let (items, pos, c) = drive(s.fr.get().iter(), style, j, len);
+                let (items, pos, c) = drive_pre(s.fr.get().iter(), pre, style, j, len);
                 got.extend(items.iter().map(|k| idk(k)));
                 positions = pos; counted = c;
             }
             1 => {
-                let (items, pos, c) = drive(s.fr.get().into_iter(), style, j, len);
+                let (items, pos, c) = drive_pre(s.fr.get().into_iter(), pre, style, j, len);
                 got.extend(items.iter().map(|k| idk(k)));
                 positions = pos; counted = c;
             }
             2 => {
-                let (items, pos, c) = drive(s.fr.get_mut().drain(), style, j, len);
+                let (items, pos, c) = drive_pre(s.fr.get_mut().drain(), pre, style, j, len);
                 got.extend(items.iter().map(idk));
                 positions = pos; counted = c;
                 drop(items);
@@ -867,7 +870,7 @@ impl<'a> Engine<'a> {
             _ => {
                 s.model = Dict::new(N);
                 let set = s.fr.take();
-                let (items, pos, c) = drive(set.into_iter(), style, j, len);
+                let (items, pos, c) = drive_pre(set.into_iter(), pre, style, j, len);
                 got.extend(items.iter().map(idk));
                 positions = pos; counted = c;
                 s.fr.put(Set::new());
@@ -1098,11 +1101,91 @@ impl<'a> Engine<'a> {
         self.conservation::<F>(total, "after step");
     }
 
+    /// Starting states from every constructor: `default`, `From<[T; N]>` with and without repeats,
+    /// `from_iter` (the first element object of a class stays).
+    fn construct<F: Fam, const N: usize>(&mut self, s: &mut Sut<F, N>) {
+        let which = self.rng.usize_below(3);
+        let name = ["Set::default", "Set::from(array)", "Set::from_iter"][which];
+        self.step("construct", || format!("{}()", name));
+        if !self.light { self.cx.rep.hit(&format!("construct:{}:{}", name, if N == 0 { "N=0" } else { "N>0" })); }
+        drop(s.fr.take());
+        let mut model = Dict::new(N);
+        let count = match which {
+            1 => N,
+            2 => if N == 0 { 0 } else { self.rng.usize_below(2 * N + 2) },
+            _ => 0,
+        };
+        let mut items: Vec<F::K> = Vec::new();
+        let mut descr: Vec<(u32, u32)> = Vec::new();
+        for _ in 0..count {
+            let mut class = <F::K as KeyF>::norm(1 + self.rng.below(u64::from(self.universe)) as u32);
+            if model.find(class).is_none() && model.is_full() {
+                class = model.ents[self.rng.usize_below(model.len())].class;
+            }
+            let tag = self.h.tag();
+            let k = F::K::mk(class, tag);
+            if model.find(class).is_none() {
+                model.push(Ent { class, tag, kid: k.id(), vid: 0, payload: 0 });
+            }
+            descr.push((class, tag));
+            items.push(k);
+        }
+        let built: Caught<Set<F::K, N>> = fault::catch(|| match which {
+            0 => Set::default(),
+            1 => {
+                let mut it = items.drain(..);
+                let arr: [F::K; N] = core::array::from_fn(|_| it.next().expect("N items were prepared"));
+                drop(it);
+                Set::from(arr)
+            }
+            _ => items.drain(..).collect(),
+        });
+        match built {
+            Caught::Ok(m) => {
+                s.fr.put(m);
+                s.model = model;
+            }
+            Caught::Panic(msg) => {
+                self.h.viol("C07", "constructor-panics", format!("{} over {:?} (class, tag) panicked: {}", name, descr, msg));
+                self.h.viol("C16", "constructor-panics", format!("{} over {:?} panicked: {}", name, descr, msg));
+                s.fr.put(Set::new());
+                s.model = Dict::new(N);
+                self.h.failed = true;
+                return;
+            }
+            Caught::Injected(..) => unreachable!(),
+        }
+        self.sweep(s);
+        self.wellformed(s, "after construction");
+    }
+
     pub fn run_history<F: Fam, const N: usize>(&mut self, max_steps: usize) {
         ledger::reset();
         self.h.live_base = F::live_objects().unwrap_or(0);
         let mut suts: Vec<Sut<F, N>> = vec![Sut::new()];
         self.sweep(&mut suts[0]);
+        if N <= 32 && self.rng.chance(1, 2) {
+            if let Caught::Panic(msg) = fault::catch(|| self.construct::<F, N>(&mut suts[0])) {
+                let text = format!("observing a freshly constructed set panicked: {}", msg);
+                self.h.viol("C07", "unexpected-panic", text.clone());
+                if self.cx.prop != "C07" {
+                    let p = self.cx.prop.clone();
+                    self.h.viol(&p, "unexpected-panic", text);
+                }
+                for mut s in suts.drain(..) {
+                    s.fr.forget();
+                }
+                let ops = self.h.ops.clone();
+                let (hist, fam) = (self.h.hist, F::NAME);
+                let mem_prop = crate::common::mem_prop(&self.cx.prop);
+                self.cx.rep.absorb_violations(mem_prop, &|| {
+                    let mut v = vec![format!("history {} family={} N={}", hist, fam, N)];
+                    v.extend(ops.iter().cloned());
+                    v
+                });
+                return;
+            }
+        }
         if N > 32 {
             let target = N - self.rng.usize_below(9).min(N);
             let mut classes: Vec<u32> = (1..=self.universe).collect();
@@ -1211,5 +1294,9 @@ pub fn history<F: Fam, const N: usize>(cx: &mut Ctx, hist: u64, mut rng: Rng, ma
         focus: 1,
     };
     e.light = e.cx.args.flag("light");
+    if e.cx.prop == "C07" {
+        // C07 lists drain among its operations: the elements a drain hands back are its return value
+        e.h.dual.push(("C10", "drain", "C07"));
+    }
     e.run_history::<F, N>(max_steps);
 }
